@@ -2,8 +2,9 @@
    The harness supplies the committed state of the address universe before the block, the consensus max_gas,
    the transactions (descriptor + what the interpreter did + the observed consensus result / receipt fields)
    and the committed state after the block.  The model (TxPipe.run from begin_block) must reproduce every
-   per-transaction observation, every balance and sequence after the block, the supply, and the next base fee. *)
-From Evm Require Import TxPipe CorrBase.
+   per-transaction observation (consensus result, receipt fields, reported contract address, receipt bloom), every
+   balance and sequence after the block, the supply, the block bloom and the next base fee. *)
+From Evm Require Import TxPipe TxPipeExt CorrBase.
 Open Scope Z_scope.
 
 Record snap := mkSnap {
@@ -14,8 +15,12 @@ Record snap := mkSnap {
 Inductive oclass := OExec (vmerr : bool) | ODropped | ORej (code : Z) | OFailed | OOther.
 Record obs := mkObs { ob_class : oclass; ob_gw : Z; ob_gu : Z; ob_idx : Z; ob_rgas : Z; ob_cum : Z; ob_logidx : Z; ob_status : Z }.
 
-Inductive citem := IEth (t : txd) (o : evm_out) (ob : obs) | ICosmos (g payer fee : Z) (inc : bool).
-Record block := mkBlock { b_pre : snap; b_maxgas : Z; b_items : list citem; b_post : snap }.
+(* receipt extension (Model/TxPipeExt.v): inputs = CREATE address of (sender, nonce) and the bloom bit positions of each
+   log of the receipt; observed = address reported by the receipt event, bits set in the receipt's bloom *)
+Record ext := mkExt { xi_ca : Z; xi_logs : list (list Z); xo_ca : option Z; xo_bloom : list Z }.
+
+Inductive citem := IEth (t : txd) (o : evm_out) (ob : obs) (x : ext) | ICosmos (g payer fee : Z) (inc : bool).
+Record block := mkBlock { b_pre : snap; b_maxgas : Z; b_items : list citem; b_post : snap; b_bloom : list Z }.
 
 Fixpoint lookupZ (l : list (Z * Z)) (k : Z) : Z :=
   match l with [] => 0 | (a, v) :: r => if a =? k then v else lookupZ r k end.
@@ -52,13 +57,30 @@ Definition res_matches (r : txres) (nlogs : Z) (ob : obs) : bool :=
   && ((if 0 <? nlogs then r_log_start r else -1) =? ob_logidx ob)
   && (r_status r =? ob_status ob).
 
-Fixpoint run_items (s : st) (l : list citem) : st * bool :=
+Definition subsetZ (a b : list Z) : bool := forallb (memZ b) a.
+Definition seteqZ (a b : list Z) : bool := subsetZ a b && subsetZ b a.
+Definition optZ_eqb (a b : option Z) : bool :=
+  match a, b with Some x, Some y => x =? y | None, None => true | _, _ => false end.
+
+Definition ext_matches (t : txd) (r : txres) (x : ext) : bool :=
+  match receipt_ext t (xi_ca x) (xi_logs x) r with
+  | Some rx => optZ_eqb (x_contract rx) (xo_ca x) && seteqZ (x_bloom rx) (xo_bloom x)
+  | None => optZ_eqb None (xo_ca x) && match xo_bloom x with [] => true | _ => false end
+  end.
+
+(* the interpreter's own movements net to minus what it destroyed (hypothesis of C04_balances_sum_to_minus_burns),
+   and the number of logs is the number of logs *)
+Definition oracle_consistent (o : evm_out) (x : ext) : bool :=
+  (sum_moves (e_moves o) =? - e_burn o) && (0 <=? e_burn o) && (Z.of_nat (length (xi_logs x)) =? e_logs o).
+
+Fixpoint run_items (s : st) (l : list citem) : st * bool * list (option rext) :=
   match l with
-  | [] => (s, true)
-  | IEth t o ob :: r =>
+  | [] => (s, true, [])
+  | IEth t o ob x :: r =>
       let '(s1, res) := deliver s t o in
-      let okr := res_matches res (match r_out res with Executed _ => e_logs o | _ => 0 end) ob in
-      let '(s2, ok2) := run_items s1 r in (s2, okr && ok2)
+      let okr := res_matches res (match r_out res with Executed _ => e_logs o | _ => 0 end) ob
+                 && ext_matches t res x && oracle_consistent o x in
+      let '(s2, ok2, rx) := run_items s1 r in (s2, okr && ok2, receipt_ext t (xi_ca x) (xi_logs x) res :: rx)
   | ICosmos g payer fee inc :: r =>
       let '(s1, _) := step s (Cosmos g payer fee inc) in run_items s1 r
   end.
@@ -74,11 +96,12 @@ Definition next_base_ok (s : st) (maxgas : Z) (post : snap) : bool :=
 
 Definition block_ok (b : block) : bool :=
   let s0 := st_of (b_pre b) (b_maxgas b) in
-  let '(s1, okr) := run_items s0 (b_items b) in
+  let '(s1, okr, rxs) := run_items s0 (b_items b) in
   okr
   && all_keys_ok (bal s1) (sn_bal (b_post b))
   && all_keys_ok (sqn s1) (sn_seq (b_post b))
   && (supply s1 =? sn_supply (b_post b))
+  && seteqZ (block_bloom_bits rxs) (b_bloom b)
   && next_base_ok s1 (b_maxgas b) (b_post b).
 
 Definition tp_mismatches (off : nat) (l : list block) : list nat := mism block_ok off l.
@@ -86,18 +109,30 @@ Definition tp_mismatches (off : nat) (l : list block) : list nat := mism block_o
 (* finer diagnosis for replay files: which component failed *)
 Definition block_diag (b : block) : list bool :=
   let s0 := st_of (b_pre b) (b_maxgas b) in
-  let '(s1, okr) := run_items s0 (b_items b) in
+  let '(s1, okr, rxs) := run_items s0 (b_items b) in
   [okr; all_keys_ok (bal s1) (sn_bal (b_post b)); all_keys_ok (sqn s1) (sn_seq (b_post b));
-   supply s1 =? sn_supply (b_post b); next_base_ok s1 (b_maxgas b) (b_post b)].
+   supply s1 =? sn_supply (b_post b); seteqZ (block_bloom_bits rxs) (b_bloom b); next_base_ok s1 (b_maxgas b) (b_post b)].
+
+(* which transactions of the block fail which part: (result, extension, oracle consistency) *)
+Fixpoint items_diag (s : st) (l : list citem) : list (bool * bool * bool) :=
+  match l with
+  | [] => []
+  | IEth t o ob x :: r =>
+      let '(s1, res) := deliver s t o in
+      (res_matches res (match r_out res with Executed _ => e_logs o | _ => 0 end) ob, ext_matches t res x, oracle_consistent o x)
+      :: items_diag s1 r
+  | ICosmos g payer fee inc :: r => let '(s1, _) := step s (Cosmos g payer fee inc) in items_diag s1 r
+  end.
+Definition block_items_diag (b : block) := items_diag (st_of (b_pre b) (b_maxgas b)) (b_items b).
 
 Fixpoint predicted (s : st) (l : list citem) : list txres :=
   match l with
   | [] => []
-  | IEth t o ob :: r => let '(s1, res) := deliver s t o in res :: predicted s1 r
+  | IEth t o ob _ :: r => let '(s1, res) := deliver s t o in res :: predicted s1 r
   | ICosmos g payer fee inc :: r => let '(s1, _) := step s (Cosmos g payer fee inc) in predicted s1 r
   end.
 Definition block_pred (b : block) := predicted (st_of (b_pre b) (b_maxgas b)) (b_items b).
 Definition block_post (b : block) :=
-  let '(s1, _) := run_items (st_of (b_pre b) (b_maxgas b)) (b_items b) in
+  let '(s1, _, _) := run_items (st_of (b_pre b) (b_maxgas b)) (b_items b) in
   (map (fun kv => (fst kv, bal s1 (fst kv), snd kv)) (sn_bal (b_post b)),
    map (fun kv => (fst kv, sqn s1 (fst kv), snd kv)) (sn_seq (b_post b)), supply s1, blk_used s1).
